@@ -33,14 +33,14 @@ func runC09(c *Ctx, r *Rec) {
 	}
 	info := c.info("agent")
 	ms := c.methodsOf(srt)
+	checkSorterKeepsNothing(c, r, "D6-operand-not-kept", srt)
 	// ---- D1
 	for _, name := range sortedKeys(ms) {
 		checkLoops(c, r, "D1-terminates-for-every-ranker", ms[name], nil)
 	}
 	// a loop whose continuation is decided by the ranker alone need not end for some rankers
 	// (and walks off the array when the ranker never says stop): a bound on a stepped counter must be conjoined
-	for _, name := range sortedKeys(ms) {
-		fd := ms[name]
+	steered := func(info *types.Info, fd *ast.FuncDecl) {
 		for li, loop := range loopsIn(fd.Body) {
 			fs, ok := loop.(*ast.ForStmt)
 			if !ok || fs.Cond == nil {
@@ -73,6 +73,10 @@ func runC09(c *Ctx, r *Rec) {
 									found = true
 								}
 							}
+						}
+						// or the verdict of a collator
+						if _, mname, _, ok := methodCall(call); ok && (mname == "CompareValues" || mname == "RankValues") {
+							found = true
 						}
 					}
 					return true
@@ -113,7 +117,21 @@ func runC09(c *Ctx, r *Rec) {
 			if uses {
 				r.check(bounded, "D1-terminates-for-every-ranker", fmt.Sprintf("%s/ranker-loop#%d", c.fdName(fd), li+1), c.pos(fs.Pos()),
 					"the ranker's answer is conjoined with a bound on a stepped counter",
-					"the loop continues as long as the ranker says so and nothing else bounds it: for a ranker that keeps answering that way (inconsistent, or always Lesser) the loop does not end and indexes outside the array")
+					"the loop continues as long as the ranker (or collator) says so and nothing else bounds it: for values on which it keeps answering that way (an inconsistent ranker, one that always says Lesser, values that are all equal) the loop does not end")
+			}
+		}
+	}
+	for _, name := range sortedKeys(ms) {
+		steered(info, ms[name])
+	}
+	// the ordering methods of Array and List that delegate to the sorter
+	for _, iface := range []string{"ArrayLike", "ListLike"} {
+		if n, err := c.impl("collection", iface); err == nil && n != nil {
+			cm := c.methodsOf(n)
+			for _, name := range sortedKeys(cm) {
+				if strings.HasPrefix(name, "Sort") || strings.HasPrefix(name, "Shuffle") || strings.HasPrefix(name, "Reverse") {
+					steered(c.info("collection"), cm[name])
+				}
 			}
 		}
 	}
@@ -1134,5 +1152,42 @@ func checkReverse(c *Ctx, r *Rec, info *types.Info, fd *ast.FuncDecl) {
 		r.fail("D6-reverse", construct, c.pos(fd.Pos()), strings.Join(viol, " | "))
 	} else {
 		r.ok("D6-reverse", construct, c.pos(fd.Pos()), "swaps mirror-image positions from the outside in, exactly while the lower one is below the upper one")
+	}
+}
+
+// checkSorterKeepsNothing: no method of the sorter stores the caller's Go array (or an alias of
+// it: the two arrays of the merge sort change roles) in the sorter or anywhere else that outlives
+// the call.  A sorter that keeps it uses the array it sorted last time as scratch space for the
+// next sort and overwrites it.
+func checkSorterKeepsNothing(c *Ctx, r *Rec, rule string, srt *types.Named) {
+	fa := c.flow()
+	ms := c.methodsOf(srt)
+	n := 0
+	for _, name := range sortedKeys(ms) {
+		fd := ms[name]
+		fn := c.funcOf(fd)
+		sf := fa.byFD[fd]
+		if fn == nil || sf == nil || !ast.IsExported(name) {
+			continue // unexported helpers are covered through the summaries of their callers
+		}
+		sum := fa.sum[sf]
+		sig := fn.Type().(*types.Signature)
+		for i := 0; i < sig.Params().Len(); i++ {
+			p := sig.Params().At(i)
+			if !isGoContainer(p.Type()) {
+				continue
+			}
+			n++
+			pi := i + 1
+			construct := c.fdName(fd) + "/" + p.Name()
+			if pi < len(sum.retains) && sum.retains[pi] {
+				r.fail(rule, construct, c.pos(fd.Pos()), "the caller's Go array is kept after the call: "+sum.whyKeep[pi]+"; the next sort with the same sorter writes into it (rankMaps sorts the keys of both maps with one sorter)")
+			} else {
+				r.ok(rule, construct, c.pos(fd.Pos()), "the array's storage flows to no field, closure or global")
+			}
+		}
+	}
+	if n == 0 {
+		r.skip(rule, "agent."+srt.Obj().Name(), c.pos(srt.Obj().Pos()), "no method of the sorter takes a Go array")
 	}
 }
